@@ -206,7 +206,7 @@ theorem fspecial_read (n : Str) : ElemOk [.code sFloat, LP, .lit (some n), RP] (
   intro f hf rest
   cases f with
   | zero => omega
-  | succ f => simp [parseV, sFloat, LP, RP]
+  | succ f => simp [parseV, sFloat, LP, RP, orElseR, floatSpecial]
 
 /-! ### calls -/
 
@@ -329,7 +329,35 @@ def emptyDictSub : PyVal → Bool
   | .dict (some _) [] => true
   | _ => false
 
-/-- `frozenset(<non-empty list literal>)` written as a call: the shape a truncated frozenset is shown in (`Proofs/Shown.lean`);
+/-- a name that may be called in a placeholder: an identifier that is no keyword and not the bytes prefix -/
+def phName (s : Str) : Bool := isNameTok s && !(s == [98]) && !isKwTok s
+
+/-- the placeholders a depth limit prints (`Proofs/Shown.lean`: `phCall`, `phLit`) and what they denote: `name(...)` is the call
+of the name on Ellipsis, `[...]` a list and `{...}` a set holding Ellipsis, `(...)` a parenthesised Ellipsis -/
+def identPh (parts : List (Nat × Str)) : Option RVal :=
+  match parts with
+  | [(t1, nm), (t2, o), (t3, e), (t4, c)] =>
+      if t1 == tFn && t2 == tPunct && t3 == tPunct && t4 == tPunct && o == [40] && e == sEll && c == [41] && phName nm
+      then some (.call nm [.kw sEll]) else none
+  | [(t1, o), (t2, e), (t3, c)] =>
+      if t1 == tPunct && t2 == tPunct && t3 == tPunct && e == sEll then
+        (if o == [91] && c == [93] then some (.list [.kw sEll])
+         else if o == [40] && c == [41] then some (.kw sEll)
+         else if o == [123] && c == [125] then some (.set [.kw sEll]) else none)
+      else none
+  | _ => none
+
+def strPhParts : List (Nat × Str) := [(tFn, nmStr), (tPunct, [40]), (tPunct, [46, 46, 46]), (tPunct, [41])]
+
+def soleStrPh : List PyVal → Bool
+  | [.ident parts] => parts == strPhParts
+  | _ => false
+
+/-- `float(str(...))`: how an inf / nan float one level above the depth cut is shown -/
+def floatPh (f : QualName) (args : List PyVal) (kwargs : List (Str × PyVal)) : Bool :=
+  f.2 == sFloat && kwargs.isEmpty && soleStrPh args
+
+/-- `frozenset(<non-empty list literal>)` written as a call is the shape a truncated frozenset is shown in (`Proofs/Shown.lean`);
 the reader gives it the reading of a frozenset literal -/
 def isListLit : PyVal → Bool
   | .seq 0 none (_ :: _) => true
@@ -385,7 +413,8 @@ def inRd : PyVal → Bool
   | .seq kind cls xs => clsOk cls && decide (kind ≤ 2) && inRdL xs
   | .frozenset cls xs => clsOk cls && inRdL xs
   | .dict cls kvs => clsOk cls && inRdP kvs
-  | .call f args kwargs => (okName f.2 || fsetLit f args kwargs) && inRdL args && inRdK kwargs
+  | .call f args kwargs => (okName f.2 || fsetLit f args kwargs || floatPh f args kwargs) && inRdL args && inRdK kwargs
+  | .ident parts => (identPh parts).isSome
   | _ => false
 def inRdL : List PyVal → Bool
   | [] => true
@@ -424,6 +453,7 @@ def erase : PyVal → RVal
   | .frozenset cls xs => fsetR cls xs.isEmpty (eraseL xs)
   | .dict cls kvs => wrapNE cls kvs.isEmpty (.dict (eraseP kvs))
   | .call f args kwargs => callR (fsetLit f args kwargs) f.2 (eraseL args ++ eraseK kwargs)
+  | .ident parts => (identPh parts).getD (.kw [])
   | _ => .kw []
 def eraseL : List PyVal → List RVal
   | [] => []
@@ -619,14 +649,14 @@ theorem parseV_brace (f : Nat) (r : List CT) : parseV (f + 1) (.code [123] :: r)
   simp [parseV]
 
 theorem parseV_set0 (f : Nat) (r : List CT) : parseV (f + 1) (.code sSet :: LP :: RP :: r) = some (.set [], r) := by
-  simp [parseV, sSet, sFloat, LP, RP]
+  simp [parseV, sSet, sFloat, LP, RP, orElseR, setEmpty]
 
 theorem parseV_fset0 (f : Nat) (r : List CT) : parseV (f + 1) (.code sFrozenset :: LP :: RP :: r) = some (.fset [], r) := by
-  simp [parseV, sFrozenset, sSet, sFloat, LP, RP]
+  simp [parseV, sFrozenset, sSet, sFloat, LP, RP, orElseR, fsetForms]
 
-theorem parseV_fset (f : Nat) (r : List CT) :
-    parseV (f + 1) (.code sFrozenset :: LP :: .code [91] :: r) = asFset (parseTailStart f [93] r) := by
-  simp [parseV, sFrozenset, sSet, sFloat, LP]
+theorem parseV_fset (f : Nat) (r : List CT) (x : RVal × List CT) (h : asFset (parseTailStart f [93] r) = some x) :
+    parseV (f + 1) (.code sFrozenset :: LP :: .code [91] :: r) = some x := by
+  simp [parseV, sFrozenset, sSet, sFloat, LP, orElseR, fsetForms, h]
 
 theorem cd_name (s : Str) (h : isBlank s = false) : cd s = [.code s] := by simp [cd, h]
 
@@ -724,6 +754,151 @@ theorem okName_not_fsetLit (f : QualName) (args : List PyVal) (kwargs : List (St
   left; left
   rw [hs] at e7 ⊢
   exact e7
+
+/-! ### placeholders -/
+
+theorem ell_read : ElemOk [ELL] (.kw sEll) 1 := kw_read sEll (Or.inr (Or.inr (Or.inr rfl)))
+
+/-- `name(...)` for any callable name, also the ones with literal-like forms of their own (float, set, frozenset) -/
+theorem ph_call_read (nm : Str) (h : phName nm = true) : ElemOk [.code nm, LP, ELL, RP] (.call nm [.kw sEll]) 6 := by
+  by_cases hok : okName nm = true
+  · have := call_read nm hok [([ELL], .kw sEll)] 1 (by intro p hp; simp at hp; subst hp; exact ell_read)
+    simpa [seqToks] using this
+  · -- one of the three names with forms of their own; the forms do not match `(...)`
+    simp only [phName, Bool.and_eq_true, Bool.not_eq_true'] at h
+    obtain ⟨⟨h1, h2⟩, h3⟩ := h
+    have hcases : nm = sFloat ∨ nm = sSet ∨ nm = sFrozenset := by
+      simp only [okName, h1, h2, h3, Bool.true_and, Bool.not_false, Bool.and_true, Bool.and_eq_true, Bool.not_eq_true', not_and] at hok
+      by_cases a : nm = sFloat
+      · exact Or.inl a
+      · by_cases b : nm = sSet
+        · exact Or.inr (Or.inl b)
+        · right; right
+          have ha : (nm == sFloat) = false := by simpa using a
+          have hb : (nm == sSet) = false := by simpa using b
+          have := hok ⟨ha, hb⟩
+          simpa using this
+    refine ⟨?_, ?_⟩
+    · rcases hcases with rfl | rfl | rfl <;> exact headOk_code _ (by decide) (by decide) (by decide) (by decide) (by decide) _
+    · intro f hf rest
+      cases f with
+      | zero => omega
+      | succ f =>
+        cases f with
+        | zero => omega
+        | succ f =>
+          cases f with
+          | zero => omega
+          | succ f =>
+            cases f with
+            | zero => omega
+            | succ f =>
+              rcases hcases with rfl | rfl | rfl <;>
+                simp [parseV, sFloat, sSet, sFrozenset, sEll, ELL, LP, RP, orElseR, floatSpecial, setEmpty, fsetForms, afterName, asCall,
+                  parseTailStart, parseTail, thenTail, isKwTok, sNone, sTrue, sFalse]
+
+theorem ph_list_read : ElemOk [.code [91], ELL, .code [93]] (.list [.kw sEll]) 4 := by
+  refine ⟨headOk_open 91 (Or.inl rfl) _, ?_⟩
+  intro f hf rest
+  cases f with
+  | zero => omega
+  | succ f =>
+    cases f with
+    | zero => omega
+    | succ f =>
+      cases f with
+      | zero => omega
+      | succ f =>
+        simp [parseV, sEll, ELL, asList, parseTailStart, parseTail, thenTail, isKwTok, sNone, sTrue, sFalse, sFloat, sSet, sFrozenset]
+
+theorem ph_paren_read : ElemOk [LP, ELL, RP] (.kw sEll) 4 := by
+  refine ⟨headOk_open 40 (Or.inr (Or.inl rfl)) _, ?_⟩
+  intro f hf rest
+  cases f with
+  | zero => omega
+  | succ f =>
+    cases f with
+    | zero => omega
+    | succ f =>
+      cases f with
+      | zero => omega
+      | succ f =>
+        simp [parseV, sEll, ELL, LP, RP, asTuple, parseTailStart, parseTail, thenTail, isKwTok, sNone, sTrue, sFalse, sFloat, sSet, sFrozenset]
+
+theorem ph_set_read : ElemOk [.code [123], ELL, .code [125]] (.set [.kw sEll]) 4 := by
+  refine ⟨headOk_open 123 (Or.inr (Or.inr rfl)) _, ?_⟩
+  intro f hf rest
+  cases f with
+  | zero => omega
+  | succ f =>
+    cases f with
+    | zero => omega
+    | succ f =>
+      cases f with
+      | zero => omega
+      | succ f =>
+        simp [parseV, sEll, ELL, parseBrace, braceAfterFirst, parseTail, isKwTok, sNone, sTrue, sFalse, sFloat, sSet, sFrozenset]
+
+theorem phName_not_blank (s : Str) (h : phName s = true) : isBlank s = false := by
+  simp only [phName, Bool.and_eq_true] at h
+  cases s with
+  | nil => simp [isNameTok] at h
+  | cons c l =>
+    have hc : (65 ≤ c ∧ c ≤ 90 ∨ 97 ≤ c ∧ c ≤ 122) ∨ c = 95 := by simpa [isNameTok] using h.1.1
+    have : (c == 32) = false := by apply beq_false_of_ne; omega
+    simp [isBlank, this]
+
+/-- the tokens of a placeholder read as what `identPh` says -/
+theorem identPh_read (parts : List (Nat × Str)) (r : RVal) (h : identPh parts = some r) : ElemOk (identToks parts) r 6 := by
+  unfold identPh at h
+  split at h
+  · rename_i t1 nm t2 o t3 e t4 c
+    split at h
+    · rename_i hc
+      simp only [Bool.and_eq_true, beq_iff_eq] at hc
+      obtain ⟨⟨⟨⟨⟨⟨⟨h1, h2⟩, h3⟩, h4⟩, ho⟩, he⟩, hcl⟩, hn⟩ := hc
+      cases h
+      subst h1 h2 h3 h4 ho he hcl
+      have hnb := phName_not_blank nm hn
+      have : identToks [(tFn, nm), (tPunct, [40]), (tPunct, sEll), (tPunct, [41])] = [.code nm, LP, ELL, RP] := by
+        simp only [identToks, List.flatMap_cons, List.flatMap_nil, tkToks, tFn, tPunct, tComment, tStr, cd, hnb]
+        simp [isBlank, sEll, LP, RP, ELL]
+      rw [this]
+      exact ph_call_read nm hn
+    · cases h
+  · rename_i t1 o t2 e t3 c
+    split at h
+    · rename_i hc
+      simp only [Bool.and_eq_true, beq_iff_eq] at hc
+      obtain ⟨⟨⟨h1, h2⟩, h3⟩, he⟩ := hc
+      subst h1 h2 h3 he
+      split at h
+      · rename_i hb
+        simp only [Bool.and_eq_true, beq_iff_eq] at hb
+        obtain ⟨rfl, rfl⟩ := hb
+        cases h
+        have : identToks [(tPunct, [91]), (tPunct, sEll), (tPunct, [93])] = [.code [91], ELL, .code [93]] := by
+          simp [identToks, tkToks, tPunct, tComment, tStr, cd, isBlank, sEll, ELL]
+        rw [this]; exact ph_list_read.mono (by omega)
+      · split at h
+        · rename_i hb
+          simp only [Bool.and_eq_true, beq_iff_eq] at hb
+          obtain ⟨rfl, rfl⟩ := hb
+          cases h
+          have : identToks [(tPunct, [40]), (tPunct, sEll), (tPunct, [41])] = [LP, ELL, RP] := by
+            simp [identToks, tkToks, tPunct, tComment, tStr, cd, isBlank, sEll, ELL, LP, RP]
+          rw [this]; exact ph_paren_read.mono (by omega)
+        · split at h
+          · rename_i hb
+            simp only [Bool.and_eq_true, beq_iff_eq] at hb
+            obtain ⟨rfl, rfl⟩ := hb
+            cases h
+            have : identToks [(tPunct, [123]), (tPunct, sEll), (tPunct, [125])] = [.code [123], ELL, .code [125]] := by
+              simp [identToks, tkToks, tPunct, tComment, tStr, cd, isBlank, sEll, ELL]
+            rw [this]; exact ph_set_read.mono (by omega)
+          · cases h
+    · cases h
+  · cases h
 
 /-! ### wrappers -/
 
@@ -1008,7 +1183,8 @@ theorem canon_reads : (v : PyVal) → inRd v = true → ∀ (ctx : Ctx), Free ct
               (by simpa [elemPairs] using hpairs) f (by rw [elemPairs_length]; simp at hfu ⊢; omega) (RP :: rest)
             simp only [List.map_cons, elemPairs_fst, elemPairs_snd] at this
             simp only [List.cons_append, List.nil_append, List.append_assoc, List.singleton_append, Bool.false_eq_true, if_false, List.append_nil] at this ⊢
-            rw [parseV_fset, this]
+            apply parseV_fset
+            rw [this]
             simp [asFset, RP, eraseL]
         | some q =>
           simp only [Option.getD_some, fsetR, List.isEmpty_cons, Bool.false_eq_true, if_false]
@@ -1128,7 +1304,7 @@ theorem canon_reads : (v : PyVal) → inRd v = true → ∀ (ctx : Ctx), Free ct
               simp only [List.cons_append, List.nil_append, List.append_assoc, List.singleton_append, LP, Bool.false_eq_true, if_false]
               have hfs2 := parseV_fset f (r ++ RP :: rest)
               simp only [LP] at hfs2
-              rw [hfs2]
+              apply hfs2
               revert hread
               generalize parseTailStart f [93] (r ++ RP :: rest) = res
               intro hread
@@ -1139,10 +1315,67 @@ theorem canon_reads : (v : PyVal) → inRd v = true → ∀ (ctx : Ctx), Free ct
                 simp only [asList, Option.some.injEq, Prod.mk.injEq, RVal.list.injEq] at hread
                 rw [hread.1, hread.2]
                 simp [asFset, RP, eraseL]
+      by_cases hfp : floatPh fn args kwargs = true
+      · -- `float(str(...))`: concrete tokens, read by computation
+        simp only [floatPh, Bool.and_eq_true, beq_iff_eq, List.isEmpty_iff] at hfp
+        obtain ⟨⟨hname, hk0⟩, hshape⟩ := hfp
+        subst hk0
+        have hfs' : fsetLit fn args [] = false := by simpa using hfs
+        cases args with
+        | nil => simp [soleStrPh] at hshape
+        | cons x rest =>
+          cases rest with
+          | cons x2 r2 => cases x <;> simp [soleStrPh] at hshape
+          | nil =>
+            cases x with
+            | ident parts =>
+              simp only [soleStrPh, beq_iff_eq] at hshape
+              subst hshape
+              obtain ⟨b, nm⟩ := fn
+              simp only at hname
+              subst hname
+              have htoks : canonW ctx (.call (b, sFloat) [.ident strPhParts] []) tr =
+                  [.code sFloat, LP, .code nmStr, LP, ELL, RP, RP] := by
+                simp [canonW, hf.any, hugCall, isHuggable, stripComments, callToks, canonL, canonKw, identToks, strPhParts, tkToks, tFn, tPunct,
+                  tComment, tStr, cd, isBlank, sFloat, nmStr, seqToks, LP, RP, ELL]
+              rw [htoks]
+              simp only [erase, hfs', callR, eraseL, eraseK, List.append_nil, Bool.false_eq_true, if_false]
+              have herase : (identPh strPhParts).getD (.kw []) = .call nmStr [.kw sEll] := by
+                simp [identPh, strPhParts, tFn, tPunct, sEll, phName, isNameTok, nmStr, isKwTok, sNone, sTrue, sFalse]
+              rw [herase]
+              refine ⟨headOk_code _ (by decide) (by decide) (by decide) (by decide) (by decide) _, ?_⟩
+              intro f hfu rest
+              simp only [need, needL, needK] at hfu
+              cases f with
+              | zero => omega
+              | succ f =>
+              cases f with
+              | zero => omega
+              | succ f =>
+              cases f with
+              | zero => omega
+              | succ f =>
+              cases f with
+              | zero => omega
+              | succ f =>
+              cases f with
+              | zero => omega
+              | succ f =>
+              cases f with
+              | zero => omega
+              | succ f =>
+              cases f with
+              | zero => omega
+              | succ f =>
+                simp [parseV, sFloat, sSet, sFrozenset, nmStr, sEll, ELL, LP, RP, orElseR, floatSpecial, afterName, asCall,
+                  parseTailStart, parseTail, thenTail, isKwTok, isNumTok, isNameTok, sNone, sTrue, sFalse]
+            | _ => simp [soleStrPh] at hshape
       have hn : okName fn.2 = true := by
         rcases Bool.or_eq_true _ _ |>.mp hn0 with h1 | h1
-        · exact h1
-        · exact absurd h1 hfs
+        · rcases Bool.or_eq_true _ _ |>.mp h1 with h2 | h2
+          · exact h2
+          · exact absurd h2 hfs
+        · exact absurd h1 hfp
       have hfs' : fsetLit fn args kwargs = false := by simpa using hfs
       simp only [canonW, hf.any, Bool.false_eq_true, if_false, erase, need, hfs', callR]
       -- hugging only changes the context of the sole argument, and a free context is free at every level
@@ -1186,7 +1419,11 @@ theorem canon_reads : (v : PyVal) → inRd v = true → ∀ (ctx : Ctx), Free ct
         simp only [callToks, cd_name fn.2 (okName_not_blank fn.2 hn), List.cons_append, List.nil_append, List.singleton_append, List.append_assoc]
         exact this.mono (by omega)
   | .opaque _, h, _, _, _, _ => by simp [inRd] at h
-  | .ident _, h, _, _, _, _ => by simp [inRd] at h
+  | .ident parts, h, ctx, hf, tr, _ => by
+      simp only [inRd, Option.isSome_iff_exists] at h
+      obtain ⟨r, hr⟩ := h
+      simp only [canonW, erase, need, hr, Option.getD_some]
+      exact identPh_read parts r hr
   | .timedelta _ _ _, h, _, _, _, _ => by simp [inRd] at h
   | .path _ _, h, _, _, _, _ => by simp [inRd] at h
 
